@@ -26,6 +26,7 @@ var _ telemetry.ProgramReport // the contracts below name the type
 //@ ghost fsops wide
 //@ ghost reportExists bool
 //@ ghost lockHeld bool
+//@ ghost lockLeft bool
 //@ ghost markerAbsent bool
 //@ ghost private bool
 //@ ghost contributed bool
@@ -63,7 +64,7 @@ func specUploader(u *uploader) bool {
 
 //@ contract Run
 //@   recovers-first
-//@   modifies heap, $fsops, $lockHeld, $markerAbsent, $reportExists, $contributed, $minsize, $nprog, $spanName, $spanOK, $spanExpiry, $collected
+//@   modifies heap, $fsops, $lockHeld, $markerAbsent, $reportExists, $contributed, $minsize, $nprog, $spanName, $spanOK, $spanExpiry, $collected, $dateOK, $age, $tooOld, $lockLeft
 
 //@ contract newUploader
 //@   ensures result1 == nil ==> uploaderOK(result0) && fresh(result0)
@@ -89,7 +90,7 @@ func specUploader(u *uploader) bool {
 //@   ensures uploaderOK(u)
 //@   ensures $mode == "off" ==> $fsops == old($fsops)
 //@   loop 1: invariant uploaderOK(u) && (len(ready) > 0 ==> $mode == "on") && ($mode == "off" ==> $fsops == old($fsops))
-//@   modifies u.cache.m, entries(u.cache.m), maps(string, int64), $fsops, $reportExists, $lockHeld, $markerAbsent, $contributed, $minsize, $nprog, $spanName, $spanOK, $spanExpiry, $collected
+//@   modifies u.cache.m, entries(u.cache.m), maps(string, int64), $fsops, $reportExists, $lockHeld, $markerAbsent, $contributed, $minsize, $nprog, $spanName, $spanOK, $spanExpiry, $collected, $dateOK, $age, $tooOld, $lockLeft
 
 // findWork only reads: nothing is created, changed or removed (it may create
 // the upload directory itself). A report name is put on the ready list only in
@@ -134,9 +135,16 @@ func specUploader(u *uploader) bool {
 // earliest begin of the week's files: after an expired file was filed under its
 // week, that week's earliest begin is not after the file's begin.
 //@   at loop 1 end: assert in(expiry, earliest) && !earliest[expiry].After(begin)
+// C09/C07, which week a collected file belongs to: a file whose span could be read
+// is filed exactly if its recorded end is before the run's start (an instant, not
+// a date: a file that ended at midnight is finished for a run later that day), and
+// it is filed under the date of that end.
+//@   at call append#1: ghost $collected = arg1[0]
+//@   at call append#1: assert err == nil && end.Before(u.startTime) && arg1[0] == f && expiry == end.Format(dateFormat)
+//@   at loop 1 end: assert err == nil && end.Before(u.startTime) ==> $collected == f
 //@   at call createReport#1: assert arg1 == earliest[expiry]
 //@   loop 2: invariant uploaderOK(u) && todo != nil && (len(todo.readyfiles) > 0 ==> $mode == "on") && $mode != "off"
-//@   modifies todo.readyfiles, u.cache.m, entries(u.cache.m), maps(string, int64), $fsops, $reportExists, $contributed, $minsize, $nprog
+//@   modifies todo.readyfiles, u.cache.m, entries(u.cache.m), maps(string, int64), $fsops, $reportExists, $contributed, $minsize, $nprog, $dateOK, $age, $tooOld, $collected
 
 //@ contract latestReport
 //@   loop 1: invariant latest == "" || strings.HasSuffix(latest, ".json")
@@ -157,10 +165,22 @@ func specUploader(u *uploader) bool {
 //@   requires $mode != "off"
 //@   modifies $fsops
 
+// tooOld: the date is parsed as a day (DateOnly); a date that does not parse is
+// not too old; otherwise the report is too old exactly if the run started more
+// than distantPast (21 days) after that day.
+//@ ghost dateOK bool
+//@ ghost tooOld bool
+//@ ghost age int
 //@ contract (*uploader).tooOld
 //@   requires uploaderOK(u)
 //@   ensures $fsops == old($fsops)
-//@   modifies nothing
+//@   at call Parse#1: assert arg0 == "2006-01-02" && arg1 == date
+//@   at call Parse#1: after ghost $dateOK = result1 == nil
+//@   at call Sub#1: assert same(arg0, uploadStartTime) && same(arg1, t)
+//@   at call Sub#1: after ghost $age = int(result)
+//@   ensures !$dateOK ==> !result
+//@   ensures $dateOK ==> (result <==> $age > int(distantPast))
+//@   modifies $dateOK, $age
 
 //@ contract (*uploader).counterDateSpan
 //@   requires uploaderOK(u)
@@ -241,6 +261,12 @@ func specUploader(u *uploader) bool {
 //@   at call deleteFiles#2: assert $reportExists && issub(arg1, countFiles, 0, len(countFiles))
 //@   at call deleteFiles#3: assert $reportExists && issub(arg1, countFiles, 0, len(countFiles))
 //@   at call exclusiveWrite#1: assert uploadOK
+// C02, the gates of the uploadable copy: it is written only in mode on, for a week
+// that is not too old, whose earliest data begins after the opt-in date (if one is
+// recorded), and whose X passes the sample rate (if one is configured).
+//@   at call tooOld#1: assert arg1 == expiryDate && same(arg2, u.startTime)
+//@   at call tooOld#1: after ghost $tooOld = result
+//@   at call exclusiveWrite#1: assert $mode == "on" && !$tooOld && ($asof.IsZero() || $asof.Before(start)) && !(report.X > u.config.SampleRate && u.config.SampleRate > 0)
 //@   loop 1: invariant uploaderOK(u) && report != nil && !$reportExists && $fsops == old($fsops)
 //@   loop 1: invariant forall i int :: 0 <= i && i < len(report.Programs) ==> specProgram(report.Programs[i])
 //@   loop 2: invariant uploaderOK(u) && report != nil && prog != nil && prog.Counters != nil && prog.Stacks != nil && !$reportExists && x != nil
@@ -283,13 +309,17 @@ func specUploader(u *uploader) bool {
 //@   at loop 3 end: assert len(upload.Programs) == $nprog + ite(approvedBuild(cfg, p), 1, 0)
 //@   at call MarshalIndent#2: assert same(upload.X, report.X) && upload.Week == report.Week
 //@   at call MarshalIndent#2: assert approvedReport(cfg, upload)
-//@   modifies u.cache.m, entries(u.cache.m), maps(string, int64), $fsops, $reportExists, $contributed, $minsize, $nprog
+//@   modifies u.cache.m, entries(u.cache.m), maps(string, int64), $fsops, $reportExists, $contributed, $minsize, $nprog, $dateOK, $age, $tooOld
 
 // uploadReport: a report dated in the future is not sent.
 //@ contract (*uploader).uploadReport
 //@   requires uploaderOK(u)
 //@   requires $mode == "on"
-//@   modifies $fsops, $lockHeld, $markerAbsent, $minsize
+//@   at call Format#1: assert same(arg0, u.startTime) && arg1 == "2006-01-02"
+//@   at call FindStringSubmatch#1: assert arg1 == fname
+//@   at call ReadFile#1: assert arg0 == fname && (match == nil || len(match) < 2 || !(match[1] > today))
+//@   at call uploadReportContents#1: assert arg1 == fname && issub(arg2, buf, 0, len(buf)) && (match == nil || len(match) < 2 || !(match[1] > today))
+//@   modifies $fsops, $lockHeld, $markerAbsent, $minsize, $lockLeft
 
 // uploadReportContents: lock before POST, marker re-checked under the lock,
 // disposal of the report exactly as the status dictates.
@@ -305,4 +335,12 @@ func specUploader(u *uploader) bool {
 //@   at call WriteFile#1: assert $lockHeld && $markerAbsent && resp.StatusCode == 200 && issub(arg1, buf, 0, len(buf))
 //@   at call Remove#4: assert $lockHeld && resp.StatusCode == 200
 //@   ensures result ==> $lockHeld && $markerAbsent
-//@   modifies $fsops, $lockHeld, $markerAbsent, $minsize
+// The lock is released on every way out once it was acquired (whatever the server
+// answered, and also when it did not answer): a lock left behind would stop every
+// later run at "Failed to acquire lock" and the week would never be delivered.
+//@   at call Base#1: ghost $lockLeft = false
+//@   at call OpenFile#1: after ghost $lockLeft = result1 == nil
+//@   at call Remove#1: assert arg0 == newname + ".lock"
+//@   at call Remove#1: ghost $lockLeft = false
+//@   ensures !$lockLeft
+//@   modifies $fsops, $lockHeld, $markerAbsent, $minsize, $lockLeft
